@@ -1,4 +1,4 @@
-import LyModel.Diff.Lemmas13Top
+import LyModel.Diff.Lemmas13Merge
 /-!
 # C13 — diffs can be reversed and composed (`src/diff.c`: `lyd_diff_reverse_all`, `lyd_diff_merge_all`)
 
@@ -155,10 +155,6 @@ example : Generated.Diff13.mergeDfltNeedsDeletedDflt = true →
       | .ok r => dataEqL true r chC | .error _ => false) = true := by decide +kernel
 
 /-! ### the 4 × 4 operation table agrees with the source -/
-
-/-- position in `enum lyd_diff_op` -/
-def opCode : Op → Nat
-  | .create => 0 | .delete => 1 | .replace => 2 | .none => 3
 
 /-- the enumeration is declared in the order the codes assume -/
 theorem op_order_matches_source : Generated.Diff13.opOrder = [0, 1, 2, 3] := by decide
